@@ -113,6 +113,9 @@ pub fn check_objective(case: &ModelCase, max_points: usize) -> Outcome {
         Ok(m) => m,
         Err(e) => return Outcome::Skip(format!("rejected:{}", err_kind(&e))),
     };
+    if case.has_constant_row_decided_by_rounding() {
+        return Outcome::Skip("a constant row is decided by f64 rounding".into());
+    }
     let lc = LinCase::from_rooc(&lin);
     let want_max = matches!(case.obj, SObj::Max(_));
     if (lc.sense == Sense::Max) != want_max || lc.sense == Sense::Satisfy {
